@@ -24,6 +24,11 @@ theorem valid_clear : ∀ (s : Shape) (st : St s), valid s (clear s st) = valid 
       induction st with
       | nil => rfl
       | cons c cs ih => simp only [List.map_cons, List.any_cons, valid_clear e c, ih]
+  | .tsld e, st => by
+      simp only [valid, clear]
+      induction st with
+      | nil => rfl
+      | cons c cs ih => simp only [List.map_cons, List.any_cons, valid_clear e c, ih]
   | .tsb fs, st => valid_clear fs st
   | .bnil, _ => rfl
   | .bcons f r, st => by simp only [valid, clear, valid_clear f st.1, valid_clear r st.2]
@@ -40,6 +45,7 @@ theorem valid_fresh : ∀ (s : Shape), valid s (fresh s) = false
       induction n with
       | zero => rfl
       | succ n ih => simp only [List.replicate_succ, List.any_cons, valid_fresh e, ih, Bool.or_self]
+  | .tsld _ => rfl
   | .tsb fs => valid_fresh fs
   | .bnil => rfl
   | .bcons f r => by simp only [valid, fresh, valid_fresh f, valid_fresh r, Bool.or_self]
@@ -67,6 +73,7 @@ theorem hasEffect_clear : ∀ (s : Shape) (st : St s) (d : Dl s), hasEffect s (c
   | .tss _ _, _, _ => rfl
   | .tsd b u v, st, d => hasEffect_tsd_clear b u v st d
   | .tsl _ _, _, _ => rfl
+  | .tsld _, _, _ => rfl
   | .tsb fs, st, d => hasEffect_clear fs st d
   | .bnil, _, _ => rfl
   | .bcons f r, st, d => by
@@ -107,6 +114,18 @@ theorem listApply_clr {σ δ : Type} (app : σ → δ → σ) (clr : σ → σ)
       rw [listApply_clr app clr hcc hac cs ods]
       cases od <;> simp [hcc, hac]
 
+theorem dynApply_clr {σ δ : Type} (freshC : σ) (app : σ → δ → σ) (clr : σ → σ)
+    (hcc : ∀ c, clr (clr c) = clr c) (hac : ∀ c d, app (clr c) d = app c d) :
+    ∀ (cs : List σ) (ds : List (Option δ)), dynApply freshC app clr (cs.map clr) ds = dynApply freshC app clr cs ds
+  | [], _ => by simp [dynApply]
+  | c :: cs, [] => by
+      simp only [List.map_cons, dynApply, hcc]
+      rw [dynApply_clr freshC app clr hcc hac cs []]
+  | c :: cs, od :: ods => by
+      simp only [List.map_cons, dynApply]
+      rw [dynApply_clr freshC app clr hcc hac cs ods]
+      cases od <;> simp [hcc, hac]
+
 theorem apply_tsd_clear (b : Bool) (u : Nat) (v : Shape) (ihc : ∀ c d, apply v (clear v c) d = apply v c d)
     (st : DictSt (St v)) (d : List (KeyOp (Dl v))) :
     apply (.tsd b u v) (clear (.tsd b u v) st) d = apply (.tsd b u v) st d := by
@@ -133,6 +152,9 @@ theorem apply_clear : ∀ (s : Shape) (st : St s) (d : Dl s), apply s (clear s s
   | .tsl e _, st, d => by
       simp only [apply, clear]
       exact listApply_clr (apply e) (clear e) (clear_clear e) (apply_clear e) st d
+  | .tsld e, st, d => by
+      simp only [apply, clear]
+      exact dynApply_clr (fresh e) (apply e) (clear e) (clear_clear e) (apply_clear e) st d
   | .tsb fs, st, d => apply_clear fs st d
   | .bnil, _, _ => rfl
   | .bcons f r, st, d => by
